@@ -292,7 +292,9 @@ def run_obligation(ob, tier, keep_work=False):
     wd = os.path.join(WORK, ob["name"])
     shutil.rmtree(wd, ignore_errors=True)
     os.makedirs(wd, exist_ok=True)
-    timeout = ob.get("timeout", 300)
+    # a time-out is reported as UNDECIDED (exit 2), which on the unchanged tree would count as a broken check: the budget is
+    # a multiple of the time measured on an idle machine so that a loaded machine still gets an answer
+    timeout = max(3 * ob.get("timeout", 300), int(os.environ.get("VERIF_MIN_TIMEOUT", "1800")))
     mem = ob.get("mem_gb", 24)
 
     def undecided(why, log=""):
